@@ -449,6 +449,12 @@ def curated() -> Dict[str, World]:
         {"top.do": [S(deps=["a", "b", "c"])], "a.do": [S(deps=["leaf"])], "b.do": [S(deps=["leaf"], out="file")],
          "c.do": [S(deps=["leaf"])], "leaf.do": [S(deps=["s"])]},
         ["top", "a", "b", "c", "leaf"], ["top", "c"])
+    W["shared-src"] = World(   # two targets that share a source and are asked for in SEPARATE runs: the run that rebuilds the
+        # first one re-stamps the source; the second one must still find out that it is older than that
+        "shared-src", {"s": ["0", "1"]},
+        {"u.do": [S(deps=["s"])], "t.do": [S(deps=["s"], out="file")], "w.do": [S(deps=["u"])]},
+        ["u", "t", "w"], ["u", "t", "w"],
+        prefixes=[[["ifchange", ["u"]], ["ifchange", ["t"]]], [["ifchange", ["w"]], ["ifchange", ["t"]], ["edit", "s", "1"], ["ifchange", ["u"]]]])
     W["csum-toggle"] = World(   # a target that starts / stops / resumes recording a checksum
         "csum-toggle", {"s": ["0", "2"]},
         {"top.do": [S(deps=["mid"])],
